@@ -31,9 +31,16 @@ def spell(f, sp, a, b, c):
     return f(a, b, c=c)
 
 
-def make_subjects(rt, count, failkey):
+def make_subjects(rt, count, failkey, selfrec=None):
+    recstate = {"done": False}
+
     def body(tag, a, b, c):
         count[(tag, a, b, c)] = count.get((tag, a, b, c), 0) + 1
+        if selfrec is not None and selfrec == (tag, a, b, c) and not recstate["done"]:
+            # the body calls itself synchronously with the same key (the documented escape hatch: the nested
+            # call gets a private task); afterwards the outer execution is still the in-flight one
+            recstate["done"] = True
+            recstate["inner"] = subs_box[0][tags_box[0].index(tag)](a, b, c=c)
         x = yield HItem(rt, 0, a, "ok", "dd%d" % len(rt.items))
         y = yield HItem(rt, 1, b, "ok", "dd%d" % len(rt.items))
         if failkey == (a, b, c):
@@ -66,7 +73,13 @@ def make_subjects(rt, count, failkey):
             return (yield from body("s", a, b, c))
 
     ka, kb = K(0), K(1)
-    return [dd, ka.m, kb.m, ka.s, dd2], ["f", "m0", "m1", "s", "g"]
+    subs_box[0] = [dd, ka.m, kb.m, ka.s, dd2]
+    tags_box[0] = ["f", "m0", "m1", "s", "g"]
+    return subs_box[0], tags_box[0]
+
+
+subs_box = [None]
+tags_box = [None]
 
 
 def mk(nw=3):
@@ -77,13 +90,16 @@ def mk(nw=3):
             cal, sp, a, b, c, dl, dirty = p[7 * i:7 * i + 7]
             W.append((conc(cal, NCALL), conc(sp, 5), conc(a, 2), conc(b, 2), 2 + conc(c, 2), conc(dl, 3), concb(dirty)))
         p0, p1, ho, fk, again = p[7 * nw:7 * nw + 5]
+        selfrec_on = (len(p) > 7 * nw + 5) and concb(p[7 * nw + 5])
         rec.clear_fail()
         prog.reset_globals()
         rt = RT(nkinds=2, prio=[p0, p1], hash_order=conc(ho, 2))
         count = {}
         fkv = conc(fk, 3)
         failkey = None if fkv == 0 else (W[0][2], W[0][3], W[0][4]) if fkv == 1 else (1, 1, 2)
-        subs, tags = make_subjects(rt, count, failkey)
+        tags0 = ["f", "m0", "m1", "s", "g"]
+        selfrec = (tags0[W[0][0]], W[0][2], W[0][3], W[0][4]) if selfrec_on else None
+        subs, tags = make_subjects(rt, count, failkey, selfrec)
         model = {}          # key -> task in flight
         created = {}        # key -> list of distinct tasks
         problems = []
@@ -156,7 +172,8 @@ def mk(nw=3):
                         return rec.fail("caller %d with key %r received another call's value %r" % (i, key, r))
             # the body ran once per distinct task created for the key
             for key, ts in created.items():
-                if count.get(key, 0) != len(ts):
+                extra = 1 if (selfrec is not None and key == selfrec) else 0
+                if count.get(key, 0) != len(ts) + extra:
                     return rec.fail("body for key %r ran %d times for %d created executions" % (key, count.get(key, 0), len(ts)))
             # after completion the next call runs the body again
             if concb(again):
@@ -193,22 +210,24 @@ def mk2():
     """two callers; callee pair / spellings / arguments / delays / dirty symbolic"""
     inner = mk(2)
 
-    def f(pair, sp0, sp1, a1, b1, dl0, dl1, dirty1, fk, again, p0, p1, ho):
+    def f(pair, sp0, sp1, a1, b1, dl0, dl1, dirty1, fk, again, p0, p1, ho, selfrec):
         c0, c1 = PAIRS[conc(pair, len(PAIRS))]
         return inner(c0, sp0, 0, 1, 0, dl0, False,
                      c1, sp1, a1, b1, 0, dl1, dirty1,
-                     p0, p1, ho, fk, again)
+                     p0, p1, ho, fk, again, selfrec)
     return f
 
 
 MK2_PARAMS = [I("pair", 0, len(PAIRS) - 1), I("sp0", 0, 4), I("sp1", 0, 4), I("a1", 0, 1), I("b1", 0, 1),
-              I("dl0", 0, 2), I("dl1", 0, 2), B("dirty1"), I("fk", 0, 2), B("again"), I("p0"), I("p1"), I("ho", 0, 1)]
+              I("dl0", 0, 2), I("dl1", 0, 2), B("dirty1"), I("fk", 0, 2), B("again"), I("p0"), I("p1"), I("ho", 0, 1),
+              B("selfrec")]
 
 
 def conds(tier):
     q = tier == "quick"
     out = []
-    pre = ["sp0 in (0, 3)", "fk <= 1", "ho == 0", "again"] if q else []
+    pre = ["sp0 in (0, 3)", "fk <= 1", "ho == 0", "again", "(not selfrec) or (fk == 0 and not dirty1)"] if q else \
+        ["(not selfrec) or (fk == 0 and not dirty1)"]
     out.append(Cond("two", mk2(), MK2_PARAMS, pin=3, builds=("C",), budget=300 if q else 1800,
                     family="two callers: callee pair x spellings x arguments x delays x dirty, symbolic schedule",
                     encodes=ENC, extra_pre=pre,
@@ -222,6 +241,7 @@ def conds(tier):
         out.append(Cond("three", mk(3), ps, pin=4, builds=("C",), budget=3000,
                         family="three callers (function / method), delays, dirty", encodes=ENC))
         out.append(Cond("twoP", mk2(), MK2_PARAMS, pin=3, builds=("P",), budget=1800,
-                        family="two callers on the pure build", encodes=ENC, extra_pre=["sp0 in (0, 3)", "fk <= 1"],
+                        family="two callers on the pure build", encodes=ENC,
+                        extra_pre=["sp0 in (0, 3)", "fk <= 1", "(not selfrec) or (fk == 0 and not dirty1)"],
                         shard_filter=lambda pair, sp0, sp1: sp0 in (0, 3)))
     return out
